@@ -515,62 +515,62 @@ func giveUpLocked(why string) {
 	}
 }
 
-// Select is the poll order of one rewritten select statement (see genconc.go).
-type Select struct {
-	order []int
-	pos   int
+// Select performs the communication of a rewritten select statement (see internal/instr/genconc.go): ready cases are
+// tried one by one, non-blocking, in an order drawn from the tape; if none is ready the result is -1 when the
+// statement has a default clause, otherwise one real select over all cases blocks until one can proceed.
+func Select(hasDefault bool, cases ...reflect.SelectCase) (int, any, bool) {
+	order := selectOrder(len(cases))
+	for _, i := range order {
+		if chosen, recv, ok := reflect.Select([]reflect.SelectCase{cases[i], {Dir: reflect.SelectDefault}}); chosen == 0 {
+			return i, ifaceOf(recv), ok
+		}
+	}
+	if hasDefault {
+		return -1, nil, false
+	}
+	i, recv, ok := reflect.Select(cases)
+	return i, ifaceOf(recv), ok
 }
 
-// NewSelect draws the order in which the n communication cases are tried (identity when nothing else runs).
-func NewSelect(n int, hasDefault bool) *Select {
-	s := &Select{order: make([]int, n)}
-	for i := range s.order {
-		s.order[i] = i
+func ifaceOf(v reflect.Value) any {
+	if !v.IsValid() || !v.CanInterface() {
+		return nil
+	}
+	return v.Interface()
+}
+
+func CaseRecv[T any](ch <-chan T) reflect.SelectCase {
+	return reflect.SelectCase{Dir: reflect.SelectRecv, Chan: reflect.ValueOf(ch)}
+}
+
+func CaseSend[T any](ch chan<- T, x T) reflect.SelectCase {
+	return reflect.SelectCase{Dir: reflect.SelectSend, Chan: reflect.ValueOf(ch), Send: reflect.ValueOf(&x).Elem()}
+}
+
+// Val gives the received value its static type back.
+func Val[T any](ch <-chan T, v any) T {
+	if t, ok := v.(T); ok {
+		return t
+	}
+	var z T
+	return z
+}
+
+func selectOrder(n int) []int {
+	order := make([]int, n)
+	for i := range order {
+		order[i] = i
 	}
 	gs.mu.Lock()
 	on := gs.on && !gs.gaveUp && !gs.off && len(gs.tasks) > 1
 	gs.mu.Unlock()
 	if on && T != nil && n > 1 && !SchedFixed {
 		for i := 0; i < n-1; i++ {
-			j := i + T.Choose(n-i, "select-order")
-			if j != i {
-				s.order[i], s.order[j] = s.order[j], s.order[i]
+			if j := i + T.Choose(n-i, "select-order"); j != i {
+				order[i], order[j] = order[j], order[i]
 				SelectDeviated++
 			}
 		}
 	}
-	return s
-}
-
-// Next is the next case to try, -1 when every case has been tried in this round.
-func (s *Select) Next() int {
-	if s.pos < len(s.order) {
-		i := s.order[s.pos]
-		s.pos++
-		return i
-	}
-	return -1
-}
-
-// Wait: no case was ready and there is no default. Give the token up until somebody else has run, then poll again.
-func (s *Select) Wait() {
-	s.pos = 0
-	gs.mu.Lock()
-	if !gs.on || gs.gaveUp || gs.off {
-		gs.mu.Unlock()
-		time.Sleep(50 * time.Microsecond) // a lone goroutine waiting for a timer or for the outside world
-		return
-	}
-	t := curTask()
-	if t == nil || gs.holder != t {
-		gs.mu.Unlock()
-		time.Sleep(50 * time.Microsecond)
-		return
-	}
-	t.state, t.wantOp = gReady, true
-	t.waiting, t.waitGen = true, gs.gen
-	gs.holder = nil
-	gs.mu.Unlock()
-	kick()
-	<-t.wake
+	return order
 }
